@@ -18,7 +18,7 @@ RULE = ("(A) pairs of plain trees with overlapping and disjoint keys at depth <=
         "equal load_tree(model-merged tree) into a fresh configuration, and unresolved includes must fail; "
         "non-trivial = merge pair with an overlapping key, or a file case with >= 1 include processed; distinct = "
         "distinct case content")
-REQUIRED = ("merge_pairs_compared", "merge_purity_checks", "file_cases_compared", "file_cases_nested_include",
+REQUIRED = ("startdir_form:rel", "startdir_form:home", "nested_schema_declared_before_includes", "merge_pairs_compared", "merge_purity_checks", "file_cases_compared", "file_cases_nested_include",
             "file_cases_chain", "file_cases_unresolvable_rejected", "file_cases_relative_startdir")
 ASSUMPTIONS = ["documents and include files are produced with the library's own codecs (decided by C04)",
                "the merged tree keeps the include key; included files naming an already processed include field of the "
@@ -76,7 +76,10 @@ def generate(rng, ctx):
     # layout
     layout = {"root_inc": rng.choice([0, 1, 1, 2]), "sub_inc": rng.random() < 0.6, "deep_inc": rng.random() < 0.4,
               "startdir_root": rng.choice([None, "inc"]), "startdir_sub": rng.choice([None, "inc", "other"]),
-              "dynamic_sub": rng.random() < 0.3}
+              "dynamic_sub": rng.random() < 0.3,
+              # the nested schema may be declared before the scope's own include fields; start directories may be given
+              # absolute, relative to the working directory at load time, or relative to the home directory
+              "sub_first": rng.random() < 0.5, "startdir_form": rng.choice(["abs", "abs", "rel", "home"])}
     files = {}  # relative file name -> tree
 
     def inc_target(name, startdir, treefn, sub=None):
@@ -94,14 +97,19 @@ def generate(rng, ctx):
             return fname, how
         return os.path.join("$DIR", d, fname), how
 
-    doc = scope()
     kinds = []
+    doc = scope()
     sub_scope = lambda: dict(scope(), **({"dyn_extra": rng.randrange(5)} if layout["dynamic_sub"] and rng.random() < 0.5 else {}))  # noqa: E731
 
     def root_file():
         t = scope()
-        if rng.random() < 0.4:
+        if rng.random() < 0.5:
             t["sub"] = sub_scope()
+            if layout["sub_inc"] and rng.random() < 0.5:
+                # the file included at the root names the include file of the nested scope
+                v, how = inc_target("s1", layout["startdir_sub"], sub_scope)
+                t["sub"]["inc"] = v
+                kinds.append(how)
         return t
 
     if layout["root_inc"] >= 1:
@@ -174,25 +182,61 @@ def _scribble(t):
             _scribble(v)
 
 
+def _startdir(layout, d, name):
+    """The start directory as the schema declares it, in the requested form."""
+    if not name:
+        return None
+    form = layout.get("startdir_form", "abs")
+    if form == "rel":
+        return name  # resolved against the working directory when the document is loaded
+    if form == "home":
+        return os.path.join("~", "c18-" + os.path.basename(d), name)
+    return os.path.join(d, name)
+
+
+def _real_startdir(layout, d, name):
+    """Where that start directory really is."""
+    if not name:
+        return None
+    if layout.get("startdir_form") == "home":
+        return os.path.join(os.path.expanduser("~"), "c18-" + os.path.basename(d), name)
+    return os.path.join(d, name)
+
+
 def _schema(cc, layout, d):
     root = cc.Schema()
     root.a = cc.IntField()
     root.b = cc.StringField()
     root.data = cc.DictField()
     root.lst = cc.ListField()
-    sd = os.path.join(d, layout["startdir_root"]) if layout["startdir_root"] else None
-    root.inc0 = cc.IncludeField(startdir=sd)
-    root.inc1 = cc.IncludeField()
-    root.sub = cc.Schema(dynamic=layout["dynamic_sub"])
-    root.sub.a = cc.IntField()
-    root.sub.b = cc.StringField()
-    root.sub.data = cc.DictField()
-    root.sub.lst = cc.ListField()
-    ssd = os.path.join(d, layout["startdir_sub"]) if layout["startdir_sub"] else None
-    root.sub.inc = cc.IncludeField(startdir=ssd)
-    root.sub.deep.z = cc.IntField()
-    root.sub.deep.data = cc.DictField()
-    root.sub.deep.inc = cc.IncludeField()
+
+    def add_includes():
+        root.inc0 = cc.IncludeField(startdir=_startdir(layout, d, layout["startdir_root"]))
+        root.inc1 = cc.IncludeField()
+
+    def add_sub():
+        root.sub = cc.Schema(dynamic=layout["dynamic_sub"])
+        root.sub.a = cc.IntField()
+        root.sub.b = cc.StringField()
+        root.sub.data = cc.DictField()
+        root.sub.lst = cc.ListField()
+        if layout.get("sub_first"):
+            root.sub.deep.z = cc.IntField()
+            root.sub.deep.data = cc.DictField()
+            root.sub.deep.inc = cc.IncludeField()
+            root.sub.inc = cc.IncludeField(startdir=_startdir(layout, d, layout["startdir_sub"]))
+        else:
+            root.sub.inc = cc.IncludeField(startdir=_startdir(layout, d, layout["startdir_sub"]))
+            root.sub.deep.z = cc.IntField()
+            root.sub.deep.data = cc.DictField()
+            root.sub.deep.inc = cc.IncludeField()
+
+    if layout.get("sub_first"):
+        add_sub()
+        add_includes()
+    else:
+        add_includes()
+        add_sub()
     return root
 
 
@@ -211,6 +255,8 @@ def _model_merged(doc, files, layout, d, cwd):
 
     def read(name, startdir):
         path = name
+        if not isinstance(path, str):
+            return None
         if not os.path.isabs(path):
             path = os.path.normpath(os.path.join(os.path.join(d, startdir) if startdir else cwd, name))
         rel = os.path.relpath(path, d)
@@ -258,16 +304,41 @@ def run_files(case, ctx, res):
     files = {k: _resolve(v, d) for k, v in case["files"].items()}
     codec = cc.ConfigFormat.get(fmt)
     dummy = schema()
+    homebase = os.path.join(os.path.expanduser("~"), "c18-" + os.path.basename(d))
     try:
         for rel, tree in files.items():
-            with open(os.path.join(d, rel), "wb") as fp:
+            real = os.path.join(d, rel)
+            top = rel.split(os.sep)[0]
+            if layout.get("startdir_form") == "home" and top in ("inc", "other") and (
+                    top == layout["startdir_root"] or top == layout["startdir_sub"]):
+                # files of a home-relative start directory live under the (sandboxed) home directory
+                real2 = os.path.join(homebase, rel)
+                os.makedirs(os.path.dirname(real2), exist_ok=True)
+                with open(real2, "wb") as fp:
+                    fp.write(codec.dumps(dummy, tree))
+            with open(real, "wb") as fp:
                 fp.write(codec.dumps(dummy, tree))
         blob = codec.dumps(dummy, doc)
     except Exception:
         res.count("file_cases_not_encodable")
+        import shutil
+
+        shutil.rmtree(homebase, ignore_errors=True)
         return
-    os.chdir(d)
+    res.count("startdir_form:" + layout.get("startdir_form", "abs"))
+    if layout.get("sub_first"):
+        res.count("nested_schema_declared_before_includes")
+    os.chdir(d)  # relative start directories are resolved now, not when the schema was declared
     status, merged = _model_merged(doc, files, layout, d, d)
+    import shutil
+
+    try:
+        return _run_files_tail(cc, ctx, res, case, schema, doc, files, layout, d, fmt, blob, status, merged)
+    finally:
+        shutil.rmtree(homebase, ignore_errors=True)
+
+
+def _run_files_tail(cc, ctx, res, case, schema, doc, files, layout, d, fmt, blob, status, merged):
     actual = schema()
     try:
         if case["use_load"]:
@@ -288,7 +359,9 @@ def run_files(case, ctx, res):
             return
         res.nontrivial("files", case["fmt"], case["doc"], case["files"], layout)
         return
-    expected = schema()
+    # the expectation comes from a schema whose start directories are given as absolute paths (the form every test
+    # uses), so that an error in resolving relative / home-relative start directories cannot cancel out
+    expected = _schema(cc, dict(layout, startdir_form="abs"), d)()
     try:
         expected.load_tree(copy.deepcopy(merged))
         eerr = None
@@ -303,6 +376,13 @@ def run_files(case, ctx, res):
         return
     res.count("file_cases_compared")
     a, b = Snapshot(actual), Snapshot(expected)
+    if layout.get("startdir_form") == "home":
+        # the validated include paths themselves legitimately differ (home directory vs case directory)
+        for snap in (a, b):
+            for holder in (snap.values, snap.values.get("sub") or {}, (snap.values.get("sub") or {}).get("deep") or {}):
+                for k in ("inc0", "inc1", "inc"):
+                    if isinstance(holder, dict) and k in holder:
+                        holder[k] = "<include path>"
     diff = b.diff(a, identity=False)
     if diff:
         res.viol("M-include", "state:" + feat, "load with includes differs from load_tree(merged): %s (doc %r, files %r)" % (
